@@ -271,6 +271,10 @@ func (ac *affCtx) form(v ssa.Value) *affForm {
 	case *ssa.ChangeType:
 		return ac.form(x.X)
 	case *ssa.BinOp:
+		// string concatenation keeps its order
+		if bt, ok := x.Type().Underlying().(*types.Basic); ok && bt.Info()&types.IsString != 0 && x.Op == token.ADD {
+			return affAtom(ac.describe(x.X) + "++" + ac.describe(x.Y))
+		}
 		if ph, ok := x.X.(*ssa.Phi); ok && ph.Comment == "rangeindex" && x.Op == token.ADD {
 			if k, ok := constInt(x.Y); ok && k == 1 {
 				return affAtom("i")
@@ -440,6 +444,10 @@ func (ac *affCtx) describe(v ssa.Value) string {
 		}
 		return name + "(" + strings.Join(args, ",") + ")"
 	case *ssa.BinOp:
+		// string concatenation keeps its order
+		if bt, ok := x.Type().Underlying().(*types.Basic); ok && bt.Info()&types.IsString != 0 && x.Op == token.ADD {
+			return ac.describe(x.X) + "++" + ac.describe(x.Y)
+		}
 		if ph, ok := x.X.(*ssa.Phi); ok && ph.Comment == "rangeindex" && x.Op == token.ADD {
 			if k, ok := constInt(x.Y); ok && k == 1 {
 				return "i"
